@@ -32,7 +32,11 @@ type inst struct {
 	api  *operations.BlackdaggerAPI
 	nrec int
 	aux  []persistence.DataStores
+	cwd  string // spelling search: the working directory of this member (names with a "/" are taken relative to it)
 }
+
+// baseCwd: the (empty) working directory of the process outside spelling-search members.
+var baseCwd string
 
 func newInst(dir string) (*inst, error) {
 	if err := os.MkdirAll(dir, 0o755); err != nil {
@@ -44,6 +48,20 @@ func newInst(dir string) (*inst, error) {
 	// the API object as internal/frontend/server wires it: handlers Configure() themselves onto it
 	in.api = &operations.BlackdaggerAPI{}
 	fdag.NewHandler(&fdag.NewHandlerArgs{Client: in.cl}, nil, "").Configure(in.api)
+	if W.ID != "classic" {
+		// an own working directory two levels deep, so that "./n", "sub/n" and "../n" all stay inside this member's scratch tree
+		in.cwd = filepath.Join(in.env.Root, "cwd", "in")
+		if err := os.MkdirAll(in.cwd, 0o755); err != nil {
+			return nil, err
+		}
+		if W.SubDirs {
+			_ = os.MkdirAll(filepath.Join(in.cwd, "sub"), 0o755)
+			_ = os.MkdirAll(filepath.Join(in.env.DAGs, "sub"), 0o755)
+		}
+		if err := os.Chdir(in.cwd); err != nil {
+			return nil, err
+		}
+	}
 	return in, nil
 }
 
@@ -55,6 +73,9 @@ func stopStores(ds persistence.DataStores) {
 }
 
 func (in *inst) close() {
+	if in.cwd != "" && baseCwd != "" {
+		_ = os.Chdir(baseCwd)
+	}
 	stopStores(in.ds)
 	for _, d := range in.aux {
 		stopStores(d)
@@ -62,7 +83,17 @@ func (in *inst) close() {
 	_ = os.RemoveAll(in.env.Root)
 }
 
-func (in *inst) loc(name string) string { return filepath.Join(in.env.DAGs, name+".yaml") }
+// loc: the file of a definition of the world (model key).
+func (in *inst) loc(key string) string {
+	k := W.byKey[key]
+	switch {
+	case k == nil:
+		return filepath.Join(in.env.DAGs, key+".yaml")
+	case k.Out:
+		return filepath.Join(in.cwd, k.Rel)
+	}
+	return filepath.Join(in.env.DAGs, k.Rel)
+}
 
 func respCode(r middleware.Responder) int {
 	rec := httptest.NewRecorder()
@@ -90,6 +121,11 @@ func (in *inst) apply(o op) (bool, string) {
 		_, err := in.cl.CreateDAG(o.A)
 		return errInfo(err)
 	case "save":
+		if o.Via == "api" {
+			r := in.api.DagsPostDagActionHandler.Handle(dags.PostDagActionParams{DagID: o.A, Body: dags.PostDagActionBody{Action: strp("save"), Value: texts[o.B]}})
+			c := respCode(r)
+			return c == 200, fmt.Sprintf("HTTP %d", c)
+		}
 		return errInfo(in.cl.UpdateDAG(o.A, texts[o.B]))
 	case "rename":
 		if o.Via == "api" {
@@ -104,8 +140,8 @@ func (in *inst) apply(o op) (bool, string) {
 			c := respCode(r)
 			return c == 200, fmt.Sprintf("HTTP %d", c)
 		}
-		// what the handler passes: the name and the location of the definition file
-		return errInfo(in.cl.DeleteDAG(o.A, in.loc(o.A)))
+		// what the handler passes: the name (as spelled) and the location of the definition file it addresses
+		return errInfo(in.cl.DeleteDAG(o.A, in.loc(addr(o.A))))
 	case "list":
 		r := in.api.DagsListDagsHandler.Handle(dags.ListDagsParams{})
 		c := respCode(r)
@@ -116,7 +152,7 @@ func (in *inst) apply(o op) (bool, string) {
 		ds := in.env.Stores()
 		in.aux = append(in.aux, ds)
 		hs := ds.HistoryStore()
-		loc := in.loc(o.A)
+		loc := in.loc(addr(o.A))
 		d := &dag.DAG{Name: o.A, Location: loc, Steps: []dag.Step{{Name: "s1", Command: "true"}}}
 		t0 := time.Date(2024, 1, 2, 3, 4, 5, 0, time.UTC).Add(time.Duration(in.nrec) * time.Second)
 		t1 := t0.Add(500 * time.Millisecond)
@@ -143,16 +179,20 @@ func vshort(s string) string {
 
 // observe takes the full observation vector from the real installation.
 func (in *inst) observe(universe []string) obs {
-	ob := obs{Names: map[string]nobs{}}
+	ob := obs{Names: map[string]nobs{}, Locs: map[string]string{}}
+	known := map[string]bool{}
 	for _, n := range names {
 		no := nobs{File: "absent", Spec: "absent"}
-		if b, err := os.ReadFile(in.loc(n)); err == nil {
+		loc := in.loc(n)
+		known[loc] = true
+		ob.Locs[n] = loc
+		if b, err := os.ReadFile(loc); err == nil {
 			no.File = ident(b)
 		}
-		if s, err := in.cl.GetDAGSpec(n); err == nil {
+		if s, err := in.cl.GetDAGSpec(W.byKey[n].Canon); err == nil {
 			no.Spec = ident([]byte(s))
 		}
-		d := &dag.DAG{Name: n, Location: in.loc(n)}
+		d := &dag.DAG{Name: n, Location: loc}
 		for _, sf := range in.cl.GetRecentHistory(d, 1000) {
 			if sf != nil && sf.Status != nil {
 				no.Hist = append(no.Hist, sf.Status.RequestID)
@@ -167,6 +207,31 @@ func (in *inst) observe(universe []string) obs {
 		sort.Strings(no.Found)
 		ob.Names[n] = no
 	}
+	if W.ID != "classic" {
+		// read every definition back under every spelling of its name
+		ob.Reads = map[string]rback{}
+		tab := "spec"
+		for _, sp := range W.Spell {
+			rb := rback{Spec: "error"}
+			if s, err := in.cl.GetDAGSpec(sp.Name); err == nil {
+				rb.Spec = ident([]byte(s))
+			}
+			r := in.api.DagsGetDagDetailsHandler.Handle(dags.GetDagDetailsParams{DagID: sp.Name, Tab: &tab})
+			if ok, is := r.(*dags.GetDagDetailsOK); is && ok.Payload != nil {
+				rb.DetCode = 200
+				p := ok.Payload
+				if p.Definition != nil {
+					rb.DetDef = ident([]byte(*p.Definition))
+				}
+				if p.DAG != nil && p.DAG.Error == nil && len(p.Errors) == 0 && p.DAG.DAG != nil && p.DAG.DAG.Location != nil {
+					rb.DetLoc = *p.DAG.DAG.Location
+				}
+			} else {
+				rb.DetCode = respCode(r)
+			}
+			ob.Reads[sp.Name] = rb
+		}
+	}
 	sts, errs, err := in.cl.GetAllStatus()
 	for _, s := range sts {
 		if s != nil && s.DAG != nil {
@@ -178,18 +243,29 @@ func (in *inst) observe(universe []string) obs {
 	if err != nil {
 		ob.Errs = append(ob.Errs, err.Error())
 	}
-	if des, err := os.ReadDir(in.env.DAGs); err == nil {
-		for _, de := range des {
-			known := false
-			for _, n := range names {
-				if de.Name() == n+".yaml" {
-					known = true
+	if W.ID == "classic" {
+		if des, err := os.ReadDir(in.env.DAGs); err == nil {
+			for _, de := range des {
+				if !known[filepath.Join(in.env.DAGs, de.Name())] {
+					ob.Extra = append(ob.Extra, de.Name())
 				}
 			}
-			if !known {
-				ob.Extra = append(ob.Extra, de.Name())
-			}
 		}
+		return ob
+	}
+	// spelling search: every regular file below the DAGs directory and below the member's working-directory tree
+	// must be the file of a definition of the world
+	for _, top := range []struct{ tag, dir string }{{"<dags>/", in.env.DAGs}, {"<cwd>/", filepath.Dir(in.cwd)}} {
+		_ = filepath.Walk(top.dir, func(p string, info os.FileInfo, err error) error {
+			if err == nil && !info.IsDir() && !known[p] {
+				rel, _ := filepath.Rel(top.dir, p)
+				if top.tag == "<cwd>/" {
+					rel, _ = filepath.Rel(in.cwd, p)
+				}
+				ob.Extra = append(ob.Extra, top.tag+rel)
+			}
+			return nil
+		})
 	}
 	return ob
 }
